@@ -49,7 +49,7 @@ func (e *Engine) verifyFn(fn *ssa.Function, opts *VCOpts, post func(fr *Frame, q
 		}
 		sub := &FnResult{Fn: r.Fn, Obls: autos, query: r.query, frame: r.frame, Background: r.Background}
 		initSem(16)
-		dischargeFn(sub, Tier{Name: "houdini", BatchMS: 2000, SingleS: 1, Parallel: 16, Skip: func(*Obligation) bool { return false }, NoModels: true, BatchOnly: true})
+		dischargeFn(sub, Tier{Name: "houdini", BatchMS: 2000, SingleS: 1, Parallel: 16, Skip: func(*Obligation) bool { return false }, NoModels: true, BatchOnly: true, LiteOnly: true})
 		changed := false
 		for _, o := range autos {
 			if o.Answer != "unsat" {
@@ -248,7 +248,9 @@ type Tier struct {
 	Seed        int
 	Parallel    int
 	NoModels    bool
+	LiteSatFinal func(o *Obligation) bool // obligations for which a counter-model of the quantifier-free part settles the question
 	BatchOnly   bool
+	LiteOnly    bool
 	Skip        func(o *Obligation) bool // obligations for which the expensive one-shot/model stage is not wanted
 }
 
@@ -377,17 +379,26 @@ func dischargeFn(r *FnResult, tier Tier) {
 	for k, i := range todo {
 		pos[i] = k
 	}
+	nAll := len(todo)
 	// script for a subset of the obligations; obligations are interleaved with the assertion stream:
 	// an obligation sees only what was known when it was generated
+	lite := false
 	mkScript := func(sub []int) string {
 		var sb strings.Builder
-		sb.WriteString(r.query.header())
+		if lite {
+			sb.WriteString(strings.Replace(r.query.header(), smtPrelude, smtPreludeLite, 1))
+		} else {
+			sb.WriteString(r.query.header())
+		}
 		ord := append([]int(nil), sub...)
 		sort.SliceStable(ord, func(a, b int) bool { return r.Obls[ord[a]].AssertIdx < r.Obls[ord[b]].AssertIdx })
 		na := 0
 		for _, i := range ord {
 			o := r.Obls[i]
 			for ; na < o.AssertIdx && na < len(r.query.asserts); na++ {
+				if lite && (strings.Contains(r.query.asserts[na], "(forall ") || strings.Contains(r.query.asserts[na], "(exists ")) {
+					continue
+				}
 				sb.WriteString("(assert " + r.query.asserts[na] + ")\n")
 			}
 			fmt.Fprintf(&sb, "(echo \"@@%d\")\n(push 1)\n(assert %s)\n(assert (not %s))\n(check-sat)\n(pop 1)\n", pos[i], o.Guard, o.Cond)
@@ -396,7 +407,7 @@ func dischargeFn(r *FnResult, tier Tier) {
 	}
 	all := map[string][]string{}
 	for _, bs := range batchSolvers {
-		all[bs.name] = make([]string, len(todo))
+		all[bs.name] = make([]string, nAll)
 	}
 	runStage := func(solvers []batchSolver, sub []int) {
 		if len(sub) == 0 {
@@ -412,7 +423,7 @@ func dischargeFn(r *FnResult, tier Tier) {
 		for _, bs := range solvers {
 			bs := bs
 			go func() {
-				a, s := runBatch(context.Background(), bs, script, tier.BatchMS, tier.Seed, len(todo))
+				a, s := runBatch(context.Background(), bs, script, tier.BatchMS, tier.Seed, nAll)
 				ch <- br{bs.name, a, s}
 			}()
 		}
@@ -430,13 +441,50 @@ func dischargeFn(r *FnResult, tier Tier) {
 			r.SolverSecs += x.sec
 		}
 	}
+	// stage 0: the quantifier-free part of the background alone (its unsat answers carry over: the full background
+	// only adds assertions); most obligations need nothing else and sat answers come back at once
+	liteSat := map[int]bool{}
+	{
+		lite = true
+		runStage(batchSolvers[:1], todo)
+		lite = false
+		var rest []int
+		for k, i := range todo {
+			a := all[batchSolvers[0].name][k]
+			if a == "unsat" {
+				r.Obls[i].Answer = "unsat"
+				r.Obls[i].Solver = batchSolvers[0].name + " (quantifier-free part)"
+				continue
+			}
+			if a == "sat" {
+				liteSat[i] = true
+			}
+			all[batchSolvers[0].name][k] = ""
+			if a == "sat" && tier.LiteSatFinal != nil && tier.LiteSatFinal(r.Obls[i]) {
+				r.Obls[i].Answer = "sat"
+				r.Obls[i].Solver = batchSolvers[0].name + " (quantifier-free part)"
+				continue
+			}
+			rest = append(rest, i)
+		}
+		todo = rest
+		if len(todo) == 0 || tier.LiteOnly {
+			for _, i := range todo {
+				if r.Obls[i].Answer == "" {
+					r.Obls[i].Answer = "unknown"
+				}
+			}
+			return
+		}
+	}
 	if tier.CrossCheck {
 		runStage(batchSolvers, todo)
 	} else {
 		// quick: z3-new first, the other two only on what it leaves open
 		runStage(batchSolvers[:1], todo)
 		var open []int
-		for k, i := range todo {
+		for _, i := range todo {
+			k := pos[i]
 			if all[batchSolvers[0].name][k] != "unsat" {
 				open = append(open, i)
 			}
@@ -444,7 +492,8 @@ func dischargeFn(r *FnResult, tier Tier) {
 		runStage(batchSolvers[1:], open)
 	}
 	var left []int
-	for k, i := range todo {
+	for _, i := range todo {
+		k := pos[i]
 		o := r.Obls[i]
 		var uns, sats []string
 		for _, bs := range batchSolvers {
